@@ -110,6 +110,10 @@ func getVCFixture(t *testing.T) *vcFixture {
 		ldAuthz := issue("NutsAuthorizationCredential", nutsCtx, map[string]any{"id": f.holder, "purposeOfUse": "eOverdracht-receiver",
 			"resources": []any{map[string]any{"path": "/Task/1", "operations": []any{"read", "update"}, "userContext": true}}}, vc.JSONLDCredentialProofFormat)
 		f.ldAuthz = mustJSON(ldAuthz)
+		// a type without a validator of its own (default validator)
+		ldCustom := issue("NutsEmployeeCredential", nutsCtx, map[string]any{"id": f.holder, "type": "Person", "member": map[string]any{"type": "EmployeeRole", "roleName": "nurse", "identifier": "123",
+			"member": map[string]any{"type": "Person", "familyName": "Doe", "initials": "J"}}}, vc.JSONLDCredentialProofFormat)
+		f.ldCustom = mustJSON(ldCustom)
 		jwtOrg := issue("NutsOrganizationCredential", nutsCtx, orgSubject, vc.JWTCredentialProofFormat)
 		f.jwtOrg = jwtOrg.Raw()
 		holderDID := did.MustParseDID(f.holder)
@@ -233,7 +237,7 @@ func init() {
 				return "ok"
 			}
 		}
-		for i, raw := range [][]byte{f.ldOrg, f.ldAuthz} {
+		for i, raw := range [][]byte{f.ldOrg, f.ldAuthz, f.ldCustom} {
 			inst := fmt.Sprintf("ld%d", i)
 			if !s.Replaying() {
 				if out := verifyVC(raw)(); out != "ok" {
